@@ -340,6 +340,7 @@ class Ctx:
         self.abs_mode = 'fork'   # or 'atom': |x| as a defined atom (no fork)
         self.cdiv_mode = 'expand'  # or 'atom': 1/w as defined atoms
         self.lazy_decide = False   # fork without feasibility queries
+        self.angle_zero_fork = False  # np.angle(z): fork on z == 0
         self.norm_positive = False  # np.linalg.norm(x) > 0 (genericity)
         self.assumptions = []    # textual, for evidence
         self.assumed = []        # z3 terms assumed (for smt2 export)
